@@ -926,7 +926,7 @@ def transmission_cases(draw, region, beam_near_axis=False):
             e1, e2, _ = geom.basis_np(cyl["axis"])
             # the failing band is tilt * r <~ eps * |base - point|
             reach = _norm(cyl["base"]) + max(cyl["r"], cyl["h"])
-            tilt = EPS * reach / cyl["r"] * 10.0 ** draw(st.floats(-1.5, 1.5))
+            tilt = EPS * reach / cyl["r"] * 10.0 ** draw(st.floats(-1.0, 0.5))
             psi = draw(_PHI)
             bcls = "near_axis"
             beam = _normalised(_lin((sgn, cyl["axis"]), (tilt * math.cos(psi), e1), (tilt * math.sin(psi), e2)))
@@ -1027,6 +1027,34 @@ def check_transmission_beam_near_axis(case):
     return check_transmission(case, include_lossy=True)
 
 
+# Found by the thorough tier of the 'transmission' facet before beams one rounding error off the
+# axis were excluded from it (Hypothesis reused the axis components for a 'generic' beam): the map of
+# the rigidly moved set-up differs by 62 %.  Whether a given near-axis beam hits the defect depends
+# on rounding, so the facet tries this descriptor first and then searches.
+BEAM_NEAR_AXIS_EXAMPLE = {
+    "cyl": {"unit": "cm", "axis": [0.9000536898219562, 3.712687592494685e-14, 0.43577902133751456],
+            "axis_class": "generic_up", "base": [0.0, 0.0, -0.7416273636147238], "r": 1.0,
+            "h": 1.8617467237642886},
+    "beam": [0.9000536898219561, 3.712687592494684e-14, 0.4357790213375145], "beam_class": "near_axis",
+    "det_unit": "m",
+    "detectors": [[0.168703986628832, 1.5454690890183438, -0.33449468965699647],
+                  [-0.7405816576463711, -3.054871462297688e-14, -0.36598371648890704],
+                  [-1.459385067588809, -6.019908472549894e-14, -0.7140067845136016]],
+    "det_class": ["perp_beam", "backward", "backward"], "wl_unit": "angstrom",
+    "wavelengths": [0.2029258033029703, 6.248235234198435],
+    "material": {"kind": "isotope", "name": "V", "dens_unit": "1/cm**3"}, "kind": "expensive",
+    "mu_size": 1.7737482798758823,
+    "move": {"quat": [1.052962185924036e-134, -1.192092896e-07, -0.5803983781604577, 0.14604028074881836],
+             "flip": True, "shift": [0.0018001073796439122, 7.425375184989369e-17, 0.000871558042675029]},
+    "other_end": False, "keep_beam_collinear": False,
+}
+
+
+def beam_near_axis_cases():
+    return st.one_of(st.just(BEAM_NEAR_AXIS_EXAMPLE), transmission_cases("sound", beam_near_axis=True),
+                     transmission_cases("sound", beam_near_axis=True))
+
+
 # ----------------------------------------------------------------------------- known findings
 
 
@@ -1093,7 +1121,7 @@ FACETS = [
           doc="agreement with the fine reference rule; invariance under rigid motion / other end; "
               "all axes involved have non-negative z-component (or are -z)"),
     Facet("transmission_beam_near_axis", check_transmission_beam_near_axis,
-          strategy=lambda tier: transmission_cases("sound", beam_near_axis=True),
+          strategy=lambda tier: beam_near_axis_cases(),
           quick=(1, 30), thorough=(4, 200), shrink=False, min_nontrivial=0.2,
           doc="same oracle, beam a few rounding errors off the axis (or along it, then rotated) without "
               "staying bit-identical to it (isolates the near-parallel path-length defect in the map)"),
